@@ -6,6 +6,8 @@
 (*  cfg(lifetime, linger, streaming)                                       *)
 (*  Open(i, c, len, raiseAt, now, ok)   stream i opened on connection c    *)
 (*  Next(i, c, out, item, now)  out: item | stop | raise | gone | other    *)
+(*  BrokenNext(i, out), LostNext(i, c, out)  fetches that never reached    *)
+(*    the server / whose reply never reached the client                    *)
 (*  Close(i), Disconnect(c, now), Housekeep(now), End(size)                *)
 (***************************************************************************)
 EXTENDS Naturals, Sequences, FiniteSets, TLC, Json, IOUtils
@@ -42,6 +44,10 @@ Step ==
                       ELSE bad
        \* a fetch on a connection the environment had cut: it never reaches the server; the client must see a communication error
        [] e.e = "BrokenNext" -> table' = table /\ bad' = IF e.out # "commerror" THEN Flag("C10.BrokenFetchNotACommunicationError_" \o e.out) ELSE bad
+       \* a fetch that the server took up and answered, but the answer got lost: the stream has moved on, the client must see a
+       \* communication error (not an item, not the end of the stream)
+       [] e.e = "LostNext" -> /\ table' = St!DoNext(table, e.i, e.c).tbl
+                              /\ bad' = IF e.out # "commerror" THEN Flag("C10.LostReplyNotACommunicationError_" \o e.out) ELSE bad
        [] e.e = "Close" -> table' = St!DoClose(table, e.i) /\ bad' = bad
        [] e.e = "Disconnect" -> table' = St!DoDisconnect(table, e.c, e.now, Cfg.linger) /\ bad' = bad
        [] e.e = "Housekeep" -> /\ table' = St!DoHousekeep(table, e.now, Cfg.lifetime, Cfg.linger)
